@@ -170,10 +170,12 @@ def specEvents (p : Pair) (key : Nat) (msg : Msg) : List String :=
   | .orderBooksL1 =>
     match msg.items with
     | [b, a] =>
-      ["nev 1", hdr b.time] ++
-      (if b.price ≠ 0 ∧ a.price ≠ 0 then
-        ["l1 " ++ fmtRat b.price ++ " " ++ fmtRat b.amount ++ " " ++ fmtRat a.price ++ " " ++ fmtRat a.amount]
-       else [])
+      -- each side on its own: a stated (non-zero) price must come through with its amount; for an
+      -- empty side (price 0) the property does not say whether it is reported as absent or as 0
+      let side (it : Item) : String :=
+        if it.price ≠ 0 then fmtRat it.price ++ " " ++ fmtRat it.amount
+        else "{none|0} {none|" ++ fmtRat it.amount ++ "}"
+      ["nev 1", hdr b.time, "l1 " ++ side b ++ " " ++ side a]
     | _ => []
   | .orderBooksL2 =>
     match msg.items with
